@@ -518,6 +518,13 @@ impl RawRecords {
         header.validate()?;
         self.current_offset += self.record_header_size;
         self.current_offset += header.meta_size();
+        // The meta is never read here and the data only with validation, but both have to be there: a record whose
+        // meta or data reaches beyond the end of the file is torn just like one whose header is cut and must not
+        // get into the index
+        if self.current_offset.saturating_add(header.data_size()) > self.file.size() {
+            return Err(IOError::from(IOErrorKind::UnexpectedEof).into_bincode_if_unexpected_eof())
+                .with_context(|| format!("record meta or data is cut, record end {}", self.current_offset.saturating_add(header.data_size())));
+        }
         let data = if read_data {
             buf.resize(header.data_size() as usize, 0);
             buf = self
@@ -528,12 +535,6 @@ impl RawRecords {
                 .with_context(|| format!("read at call failed, size {}", self.current_offset))?;
             Some(buf)
         } else {
-            // The data is not read, but it has to be there: a record whose meta or data reaches beyond the end
-            // of the file is torn just like one whose header is cut and must not get into the index
-            if self.current_offset.saturating_add(header.data_size()) > self.file.size() {
-                return Err(IOError::from(IOErrorKind::UnexpectedEof).into_bincode_if_unexpected_eof())
-                    .with_context(|| format!("record data is cut, record end {}", self.current_offset.saturating_add(header.data_size())));
-            }
             None
         };
         self.current_offset += header.data_size();
